@@ -25,7 +25,7 @@ import (
 
 const rtPath = "github.com/metrico/qryn/zz_verif/simrt"
 
-type stats struct{ gos, locks, yields, selects, exits, files, preempts int }
+type stats struct{ gos, locks, yields, selects, exits, files, preempts, mapacc int }
 
 var st stats
 
@@ -83,7 +83,7 @@ func main() {
 			st.files++
 		}
 	}
-	fmt.Printf("instrumented: files=%d go=%d lock-ops=%d yields=%d selects=%d exits=%d preempts=%d\n", st.files, st.gos, st.locks, st.yields, st.selects, st.exits, st.preempts)
+	fmt.Printf("instrumented: files=%d go=%d lock-ops=%d yields=%d selects=%d exits=%d preempts=%d map-accesses=%d\n", st.files, st.gos, st.locks, st.yields, st.selects, st.exits, st.preempts, st.mapacc)
 }
 
 // dropBodyComments removes the comments inside function bodies: inserted statements carry no positions and
@@ -355,6 +355,162 @@ func (in *instr) rewriteCalls(n ast.Node) {
 }
 
 func (in *instr) stmt(s ast.Stmt) []ast.Stmt {
+	pre := in.mapAccesses(s)
+	if len(pre) == 0 {
+		return in.stmt1(s)
+	}
+	return append(pre, in.stmt1(s)...)
+}
+
+// ---- accesses to shared Go maps (lock discipline, see simrt.MapAccess)
+
+// sharedMapExpr: a map-typed expression that can name state shared between goroutines - a package-level variable or a
+// field path (x.f, x.f.g, (*p).f); plain local variables are left alone.
+func (in *instr) sharedMapExpr(e ast.Expr) bool {
+	t := in.typeOf(e)
+	if t == nil {
+		return false
+	}
+	if _, ok := t.Underlying().(*types.Map); !ok {
+		return false
+	}
+	return in.purePath(e, true)
+}
+
+func (in *instr) purePath(e ast.Expr, top bool) bool {
+	switch v := e.(type) {
+	case *ast.Ident:
+		if !top {
+			return true
+		}
+		obj := in.pkg.TypesInfo.Uses[v]
+		if obj == nil {
+			return false
+		}
+		_, isVar := obj.(*types.Var)
+		return isVar && obj.Parent() == obj.Pkg().Scope()
+	case *ast.SelectorExpr:
+		if id, ok := v.X.(*ast.Ident); ok {
+			if _, isPkg := in.pkg.TypesInfo.Uses[id].(*types.PkgName); isPkg {
+				return true // pkg.Var
+			}
+		}
+		return in.purePath(v.X, false)
+	case *ast.ParenExpr:
+		return in.purePath(v.X, top)
+	case *ast.StarExpr:
+		return in.purePath(v.X, false)
+	}
+	return false
+}
+
+// mapAccesses returns marker statements for the shared-map accesses that statement s itself performs (not the ones in
+// its nested blocks or function literals, which are visited on their own).
+func (in *instr) mapAccesses(s ast.Stmt) []ast.Stmt {
+	var roots []ast.Node
+	writes := map[ast.Expr]bool{}
+	switch v := s.(type) {
+	case *ast.AssignStmt:
+		for _, l := range v.Lhs {
+			if ix, ok := l.(*ast.IndexExpr); ok {
+				writes[ix.X] = true
+			}
+		}
+		roots = append(roots, v)
+	case *ast.IncDecStmt:
+		if ix, ok := v.X.(*ast.IndexExpr); ok {
+			writes[ix.X] = true
+		}
+		roots = append(roots, v)
+	case *ast.ExprStmt, *ast.ReturnStmt, *ast.SendStmt, *ast.DeclStmt:
+		roots = append(roots, v)
+	case *ast.IfStmt:
+		if v.Init != nil {
+			if as, ok := v.Init.(*ast.AssignStmt); ok {
+				for _, l := range as.Lhs {
+					if ix, ok := l.(*ast.IndexExpr); ok {
+						writes[ix.X] = true
+					}
+				}
+			}
+			roots = append(roots, v.Init)
+		} else {
+			// (with an init statement the condition may name variables that do not exist before the if)
+			roots = append(roots, v.Cond)
+		}
+	case *ast.ForStmt:
+		if v.Cond != nil && v.Init == nil {
+			roots = append(roots, v.Cond)
+		}
+	case *ast.SwitchStmt:
+		if v.Tag != nil && v.Init == nil {
+			roots = append(roots, v.Tag)
+		}
+	case *ast.RangeStmt:
+		roots = append(roots, v.X)
+	default:
+		return nil
+	}
+	type acc struct {
+		e     ast.Expr
+		write bool
+	}
+	var found []acc
+	seen := map[string]bool{}
+	note := func(e ast.Expr, w bool) {
+		if !in.sharedMapExpr(e) {
+			return
+		}
+		k := fmt.Sprintf("%s|%v", types.ExprString(e), w)
+		if seen[k] {
+			return
+		}
+		seen[k] = true
+		found = append(found, acc{e, w})
+	}
+	for _, r := range roots {
+		ast.Inspect(r, func(n ast.Node) bool {
+			switch x := n.(type) {
+			case *ast.FuncLit:
+				return false
+			case *ast.IndexExpr:
+				note(x.X, writes[x.X])
+			case *ast.CallExpr:
+				if id, ok := x.Fun.(*ast.Ident); ok && len(x.Args) > 0 {
+					switch id.Name {
+					case "delete", "clear":
+						if _, isBuiltin := in.pkg.TypesInfo.Uses[id].(*types.Builtin); isBuiltin {
+							note(x.Args[0], true)
+						}
+					case "len":
+						if _, isBuiltin := in.pkg.TypesInfo.Uses[id].(*types.Builtin); isBuiltin {
+							note(x.Args[0], false)
+						}
+					}
+				}
+			}
+			return true
+		})
+	}
+	if rs, ok := s.(*ast.RangeStmt); ok {
+		note(rs.X, false)
+	}
+	var out []ast.Stmt
+	for _, a := range found {
+		st.mapacc++
+		in.changed = true
+		w := "false"
+		if a.write {
+			w = "true"
+		}
+		get := &ast.FuncLit{Type: &ast.FuncType{Params: &ast.FieldList{}, Results: &ast.FieldList{List: []*ast.Field{{Type: ast.NewIdent("any")}}}},
+			Body: &ast.BlockStmt{List: []ast.Stmt{&ast.ReturnStmt{Results: []ast.Expr{a.e}}}}}
+		out = append(out, &ast.ExprStmt{X: &ast.CallExpr{Fun: rt("MapAccess"), Args: []ast.Expr{get, ast.NewIdent(w), in.site(s)}}})
+	}
+	return out
+}
+
+func (in *instr) stmt1(s ast.Stmt) []ast.Stmt {
 	switch v := s.(type) {
 	case *ast.BlockStmt:
 		in.block(v)
